@@ -128,7 +128,7 @@ func checkC02(c *Ctx) {
 		"code only on leaves; blend laws on the blend functions and on root-blended shapes; cache query histories; voxel corner / cell " +
 		"range. Non-trivial tree = both signs seen and >= 2 distinct combinator kinds; distinct = tree description.")
 	c.Assume("tolerance 1e-9*(tree size + |p|); at points within 1e-9 rad of a rotate-copy sector boundary either fold is accepted; orientation of Slice2D's in-plane axes is an implementation choice (learned with a probe leaf, then checked to be a right-handed isometric frame of the plane)")
-	nTrees := c.Pick(700, 20000)
+	nTrees := c.Pick(6000, 60000)
 	nPts := c.Pick(400, 1500)
 	maxDepth := c.Pick(3, 5)
 	kindSeen := map[string]int{}
@@ -202,7 +202,7 @@ func checkC02(c *Ctx) {
 	c02Cache(c)
 	c02Voxel(c)
 	c02Slice(c)
-	c.Floor(c.Pick(300, 8000))
+	c.Floor(c.Pick(2500, 25000))
 }
 
 // blend laws
@@ -273,7 +273,7 @@ func c02Blends(c *Ctx) {
 		if f.name == "ExpMin" {
 			kk = 32 / scale
 		}
-		var eval func(q int) (got, a, b float64, p any)
+		var eval func(q int) (got float64, as, bs []float64, p any)
 		var desc string
 		mode := i % 5
 		if i%2 == 0 {
@@ -295,9 +295,9 @@ func c02Blends(c *Ctx) {
 				s, desc = u, "Difference3D+PolyMax"
 			}
 			desc += fmt.Sprintf("[k=%.4g](%s, %s)", kk, A.desc, B.desc)
-			eval = func(q int) (float64, float64, float64, any) {
+			eval = func(q int) (float64, []float64, []float64, any) {
 				p := samplePoint3(r, bbx, nil)
-				return s.Evaluate(p), A.ref3(p)[0], B.ref3(p)[0], p
+				return s.Evaluate(p), A.ref3(p), B.ref3(p), p
 			}
 		} else {
 			A, B := gen2(r, r.IR(0, 2), scale, o), gen2(r, r.IR(0, 2), scale, o)
@@ -318,26 +318,56 @@ func c02Blends(c *Ctx) {
 				s, desc = u, "Difference2D+PolyMax"
 			}
 			desc += fmt.Sprintf("[k=%.4g](%s, %s)", kk, A.desc, B.desc)
-			eval = func(q int) (float64, float64, float64, any) {
+			eval = func(q int) (float64, []float64, []float64, any) {
 				p := samplePoint2(r, bbx, nil)
-				return s.Evaluate(p), A.ref2(p)[0], B.ref2(p)[0], p
+				return s.Evaluate(p), A.ref2(p), B.ref2(p), p
 			}
 		}
 		filleted := false
 		for q := 0; q < 300; q++ {
-			got, a, b, p := eval(q)
+			got, as, bs, p := eval(q)
+			// operands may have two acceptable values on a fold boundary: the law must hold for one combination
+			var bad string
+			var a, b float64
+			for _, a = range as {
+				for _, b = range bs {
+					bad = blendLaw(mode, f.name, got, a, b, k, kk, scale, &filleted)
+					if bad == "" {
+						break
+					}
+				}
+				if bad == "" {
+					break
+				}
+			}
+			if bad != "" {
+				c.Violate("", fmt.Sprintf("blended-shape %s at p=%v: a=%g b=%g: %s", desc, p, a, b, bad), map[string]any{"shape": desc, "p": p, "a": as, "b": bs, "got": got})
+				break
+			}
+		}
+		c.Eval(300)
+		if filleted {
+			c.Distinct("blendshape/" + desc)
+		}
+	})
+}
+
+// blendLaw judges one evaluation of a root-blended shape against its operand values.
+func blendLaw(mode int, fname string, got, a, b, k, kk, scale float64, filleted *bool) string {
+	{
+		{
 			tol := 1e-9 * (scale + math.Abs(a) + math.Abs(b))
 			var bad string
 			switch mode {
 			case 0, 1, 2:
 				mn := math.Min(a, b)
-				if f.name == "ExpMin" && (math.Abs(kk*a) > 300 || math.Abs(kk*b) > 300) {
-					continue
+				if fname == "ExpMin" && (math.Abs(kk*a) > 300 || math.Abs(kk*b) > 300) {
+					return ""
 				}
 				if !(got <= mn+tol) {
 					bad = fmt.Sprintf("result %g > min(a,b)=%g: the blend removed material", got, mn)
 				}
-				if f.name == "PolyMin" {
+				if fname == "PolyMin" {
 					if got < mn-k/4-tol {
 						bad = fmt.Sprintf("result %g below min-k/4=%g", got, mn-k/4)
 					}
@@ -346,7 +376,7 @@ func c02Blends(c *Ctx) {
 					}
 				}
 				if got < mn-tol {
-					filleted = true
+					*filleted = true
 				}
 			default:
 				if mode == 4 {
@@ -357,19 +387,12 @@ func c02Blends(c *Ctx) {
 					bad = fmt.Sprintf("result %g outside [max, max+k/4]=[%g,%g]", got, mx, mx+k/4)
 				}
 				if got > mx+tol {
-					filleted = true
+					*filleted = true
 				}
 			}
-			if bad != "" {
-				c.Violate("", fmt.Sprintf("blended-shape %s at p=%v: a=%g b=%g: %s", desc, p, a, b, bad), map[string]any{"shape": desc, "p": p, "a": a, "b": b, "got": got})
-				break
-			}
+			return bad
 		}
-		c.Eval(300)
-		if filleted {
-			c.Distinct("blendshape/" + desc)
-		}
-	})
+	}
 }
 
 // cache wrapper: random query histories with repeats
@@ -388,7 +411,7 @@ func c02Cache(c *Ctx) {
 				pool[j] = pool[j-1]
 				if r.Bool() {
 					pool[j].Y = math.Nextafter(pool[j].Y, math.Inf(1))
-				} else {
+				} else if pool[j].Y != 0 { // (x,+0) and (x,-0) are one map key; only a discontinuous wrapped shape tells them apart
 					pool[j].Y = -pool[j].Y
 				}
 			}
